@@ -54,9 +54,9 @@ Definition recognise (t : list lev) : rst := fold_left rstep t R0.
 Definition r_prefix_ok (r : rst) : bool := match r with RBad => false | _ => true end.
 Definition r_complete (r : rst) : bool := match r with RDone _ => true | _ => false end.
 
-(* the spawn-less openings (S12b): run_task fails BEFORE emitting the spawn frame when the tool is
-   unsupported, the args do not deserialise, or the artifacts dir cannot be created (mod.rs:374-409):
-   the whole stream is the single frame `Status failed`. *)
+(* the spawn-less opening (S12b, repaired): run_task used to fail BEFORE emitting the spawn frame when
+   the tool is unsupported, the args do not deserialise, or the artifacts dir cannot be created: the
+   whole stream was the single frame `Status failed`. *)
 Definition spawnless_failed (t : list lev) : bool :=
   match t with [LStatus 4] => true | _ => false end.
 
@@ -118,7 +118,8 @@ Definition set_pump (s : sys) (i : N) (p : ppc) (tr : list lev) : sys :=
 (* one step; None = the action is not enabled in this state *)
 Definition step (s : sys) (a : act) : option sys :=
   match a with
-  | APrecheckFail => match s_main s with MStart => Some (emit s (LStatus 4) MEnd) | _ => None end
+  | APrecheckFail => None   (* since the repair of S12b the spawn frame precedes every check: a refused
+                               request is APostSpawnFail *)
   | ASpawnFrame => match s_main s with MStart => Some (emit s LSpawned MSpawnedPc) | _ => None end
   | APostSpawnFail => match s_main s with MSpawnedPc => Some (emit s (LStatus 4) MEnd) | _ => None end
   | AStartRunning =>
@@ -167,6 +168,17 @@ Definition step (s : sys) (a : act) : option sys :=
   | AEmitFinal =>
     match s_main s with MFinal st => Some (emit s (LStatus st) MEnd) | _ => None end
   end.
+
+(* run_task before the repair of S12b: unsupported tool / invalid args / artifacts dir failed the task
+   BEFORE the spawn frame was emitted (mod.rs:374-409): the whole stream was `Status failed` *)
+Definition step_unfixed (s : sys) (a : act) : option sys :=
+  match a with
+  | APrecheckFail => match s_main s with MStart => Some (emit s (LStatus 4) MEnd) | _ => None end
+  | _ => step s a
+  end.
+Definition step_skip_unfixed (s : sys) (a : act) : sys :=
+  match step_unfixed s a with Some s' => s' | None => s end.
+Definition run_unfixed (sched : list act) : sys := fold_left step_skip_unfixed sched sys0.
 
 (* a schedule is any list of actions; disabled actions are skipped (so EVERY list is a schedule) *)
 Definition step_skip (s : sys) (a : act) : sys := match step s a with Some s' => s' | None => s end.
